@@ -59,3 +59,22 @@ Qed.
 
 Theorem survives base p xs : s_alive (serve_all base p xs) = true.
 Proof. unfold serve_all. now destruct (isolation base p xs sinit) as (-> & _). Qed.
+
+(* ---------- the ladder regenerated from the source is the one [finish] implements ---------- *)
+Lemma ladder_from_source : forall o,
+  match raised o with Some x => handler_for x = ladder_expect o | None => ladder_expect o = None end.
+Proof. intros o. destruct o; reflexivity. Qed.
+
+(* a cancellation is caught by no clause: it passes through (the session's group deals with it) *)
+Lemma cancellation_not_caught : handler_for XCancelled = None.
+Proof. reflexivity. Qed.
+
+(* ... and [finish] does what [ladder_expect] says *)
+Lemma finish_follows_ladder : forall rq o,
+  match ladder_expect o with
+  | Some (LCode c, d, _) => f_result (finish rq o) = RError (JInt c) [] /\ f_disconnect (finish rq o) = d
+  | Some (LOwn, d, _) => (exists c m, f_result (finish rq o) = RError (JInt c) m) /\ f_disconnect (finish rq o) = d
+  | Some (LPayload, d, _) => f_disconnect (finish rq o) = d
+  | _ => f_disconnect (finish rq o) = false
+  end.
+Proof. intros rq o. destruct o; cbn; auto; split; eauto. Qed.
